@@ -840,7 +840,8 @@ void Mtz::write_to_stream(Write write) const {
   std::memcpy(buf + 8, &machst, 4);
   std::memcpy(buf + 12, &real_header_start, 8);
   if (write(buf, 80, 1) != 1 ||
-      write(data.data(), 4, data.size()) != data.size())
+      // data.data() is null when there are no reflections
+      (!data.empty() && write(data.data(), 4, data.size()) != data.size()))
     fail("Writing MTZ file failed");
   WRITE("VERS MTZ:V1.1");
   WRITE("TITLE %s", title.c_str());
